@@ -18,6 +18,48 @@ NAMES = ['out.txt', 'a.b', 'a_b', 'a_b2', 'stdout', 'stderr', 'exit_code', 'no_e
 DEF_RE = re.compile(r'^    def test_(\w+)\(self\):\n((?:        .*\n|\n)*)', re.M)
 
 
+def class_body_parts(path):
+    """the statements of the class body of a generated script, in order, each with the class-level names it defines and
+    the class-level names it reads when the class is created; and whether Python creates the class (the script is executed
+    as a module, not as __main__: no test runs) without a NameError"""
+    import ast
+    with open(path, encoding='utf-8') as f:
+        text = f.read()
+    tree = ast.parse(text)
+    cls = next(n for n in tree.body if isinstance(n, ast.ClassDef))
+
+    def targets(st):
+        return [n.id for n in ast.walk(st) if isinstance(n, ast.Name) and isinstance(n.ctx, ast.Store)]
+    level = set()
+    for st in cls.body:
+        if isinstance(st, (ast.FunctionDef, ast.AsyncFunctionDef)):
+            level.add(st.name)
+        else:
+            level.update(targets(st))
+    parts = []
+    for st in cls.body:
+        if isinstance(st, (ast.FunctionDef, ast.AsyncFunctionDef)):
+            parts.append({'defines': [st.name], 'uses': []})
+        else:
+            loads = [n.id for n in ast.walk(st) if isinstance(n, ast.Name) and isinstance(n.ctx, ast.Load) and n.id in level]
+            own = targets(st)
+            # (a name assigned earlier in the same compound statement is not read from outside it)
+            parts.append({'defines': sorted(set(own)), 'uses': sorted(set(loads) - set(own))})
+    try:
+        saved_env = dict(os.environ)
+        try:
+            exec(compile(text, path, 'exec'), {'__file__': path, '__name__': 'generated_script'})
+        finally:
+            os.environ.clear()
+            os.environ.update(saved_env)
+        created = True
+    except NameError:
+        created = False
+    except Exception:   # noqa  (anything else is for the run of the script to show)
+        created = True
+    return {'parts': parts, 'created': created}
+
+
 def parse_script(text):
     """[(test name, kind)] in order"""
     out = []
@@ -75,7 +117,7 @@ class C11(GentestProp):
     lean_modules = ['TddaVerif.Props.C11']
     theorems = ['TddaVerif.Props.C11.' + t for t in [
         'testNames_nodup', 'plan_names_nodup', 'plan_length', 'plan_files', 'plan_streams', 'possibleDate_iff',
-        'numDateLike_iff', 'unchanged_output_passes']]
+        'numDateLike_iff', 'unchanged_output_passes', 'class_body_well_ordered', 'wellOrdered_spec', 'tie_script_template']]
     quick_n = 64
     thorough_n = 2500
     rule = ('cases: (run) deterministic shell commands printing 0..5 lines on stdout / stderr from a pool of date-like, time-like, '
@@ -93,6 +135,10 @@ class C11(GentestProp):
         'is_date_like / possible_date; tied by gt.names / gt.plan (against the def test_ lines of really generated scripts) / gt.datelike',
         'str.isalnum enters the model as the ASCII predicate (generated file names are ASCII)',
     ]
+
+    def translate(self):
+        import translate
+        return translate.regenerate(['Gentest'])
 
     def corpus(self):
         base = {'stdout': 'version 1.2.0 build 15\n31/02/2020\n', 'stderr': '', 'files': [], 'status': 0, 'iterations': 2,
@@ -161,6 +207,7 @@ class C11(GentestProp):
         res['outputs_missing'] = sorted(gt.target_of(fl) for fl in case['files'] if fl['how'] != 'tmp' and
                                         not os.path.exists(os.path.join(d, gt.target_of(fl, os.path.basename(d)))))
         if res['syntax'] is None:
+            res['body'] = class_body_parts(sp)
             r = gt.run_script(d, g['script'])
             res['run'] = {k: r[k] for k in ('rc', 'failed', 'errors', 'ran')}
             res['run_text'] = r['text'][-600:]
@@ -233,7 +280,10 @@ class C11(GentestProp):
         if files is None:
             return []
         return [{'op': 'gt.plan', 'stdout': '--no-stdout' not in case['flags'], 'stderr': '--no-stderr' not in case['flags'],
-                 'files': files}]
+                 'files': files}] + self._body_ops(r)
+
+    def _body_ops(self, r):
+        return [{'op': 'gt.well_ordered', 'parts': r['body']['parts']}] if r.get('body') else []
 
     def _plan_files(self, case, r):
         """the reference files in the order gentest handles them (sorted by path) with the kind the script used"""
@@ -264,7 +314,7 @@ class C11(GentestProp):
                     out += [{'exc': type(e).__name__}, {'exc': type(e).__name__}]
             return out
         r = self.result(case)
-        return [r['tests']]
+        return [r['tests']] + ([r['body']['created']] if r.get('body') else [])
 
     def canon_model(self, case, outs):
         return [o['ok'] if 'ok' in o else {'exc': o.get('exc')} for o in outs]
